@@ -30,7 +30,7 @@ EXPLANATION = (
     "NOT decided: that draws validate (hypothesis search + numpy/pandas dtype conversion)."
 )
 LEVEL_RULE = "one obligation per (check strategy, path) / parameter / fallback site"
-FLOORS = {"R1": 14, "R2": 30, "R3": 14, "R4": 1, "R5": 3, "R6": 2, "R7": 3, "R8": 1, "R9": 1, "R10": 1, "R11": 10, "R12": 15, "R13": 1, "R14": 3}
+FLOORS = {"R1": 14, "R2": 30, "R3": 14, "R4": 1, "R5": 3, "R6": 2, "R7": 3, "R8": 1, "R9": 1, "R10": 1, "R11": 10, "R12": 15, "R13": 1, "R14": 3, "R15": 4, "R16": 1}
 
 PD = "pandera/backends/pandas/builtin_checks.py"
 ST = "pandera/strategies/pandas_strategies.py"
@@ -679,7 +679,75 @@ def r14_fallback_filter_everywhere(ctx):
         raise AnalysisError("expected series_strategy and index_strategy to take `checks`")
 
 
+def r15_statistics_are_the_check_arguments(ctx):
+    """A strategy is generated from `check.statistics`, validation runs the check function on the keyword arguments.  For
+    the built-in constructors that store both explicitly, the statistic of a name and the argument of the same name are
+    the same value (or one is a container-normalised form of the other) and neither is a lossy projection: storing
+    `re.compile(p).pattern` drops the flags of a pre-compiled pattern, so the strategy generates strings for the flag-less
+    source which the flag-honouring check then rejects."""
+    from ..util import Expander
+    m = ctx.ix.module("pandera/api/checks.py")
+    n = 0
+    for f in m.all_functions:
+        ex = None
+        for c in calls_in(f.node):
+            st = kw(c, "statistics")
+            if not isinstance(st, ast.Dict):
+                continue
+            ex = ex or Expander(f.node)
+            for k, sv in zip(st.keys, st.values):
+                if not (isinstance(k, ast.Constant) and isinstance(k.value, str)):
+                    continue
+                av = kw(c, k.value)
+                if av is None:
+                    continue
+                n += 1
+                lossy = [x for e in (sv, av) for d in ex.closure(e) for x in ast.walk(d) if isinstance(x, ast.Attribute) and x.attr in ("pattern", "flags")]
+                names_s = {x.id for d in ex.closure(sv) for x in ast.walk(d) if isinstance(x, ast.Name)}
+                names_a = {x.id for d in ex.closure(av) for x in ast.walk(d) if isinstance(x, ast.Name)}
+                related = txt(sv) == txt(av) or bool(names_s & names_a)
+                ok = related and not lossy
+                ctx.ob("R15", f, f"{f.short}: statistic `{k.value}` is the argument `{k.value}` of the check function", ok,
+                       f"statistics[{k.value!r}] = {txt(sv)[:30]}, {k.value} = {txt(av)[:30]}" if ok else
+                       (f"`{txt(lossy[0])}` is a lossy projection of a compiled pattern (its flags are dropped): the strategy generates for the flag-less source while "
+                        "the check honours the flags" if lossy else f"statistics[{k.value!r}] = `{txt(sv)[:40]}` and {k.value} = `{txt(av)[:40]}` are unrelated values"),
+                       f.loc(c))
+    if n < 4:
+        raise AnalysisError(f"api/checks.py: explicit statistics entries found: {n}")
+
+
+def r16_dataframe_dtype_wins(ctx):
+    """Validation overrides every column's dtype with the dataframe-level dtype when one is declared
+    (run_schema_component_checks: `schema_component.dtype = schema.dtype`).  The dataframe strategy has to resolve the
+    dtype of each generated column the same way: wherever it chooses between the column's dtype and the dataframe-level
+    `pandera_dtype`, the choice is made on `pandera_dtype is None` and the dataframe-level dtype is taken when it is set."""
+    stm = ctx.ix.module(ST)
+    f = stm.functions.get("dataframe_strategy")
+    if f is None:
+        raise AnalysisError("dataframe_strategy missing")
+    n = 0
+    for x in ast.walk(f.node):
+        if not isinstance(x, ast.IfExp):
+            continue
+        t_body, t_else, t_test = txt(x.body), txt(x.orelse), txt(x.test)
+        if not (("pandera_dtype" in t_body + t_else) and (".dtype" in t_body + t_else)):
+            continue
+        n += 1
+        on_df = "pandera_dtype" in t_test and ".dtype" not in t_test.replace("pandera_dtype", "")
+        neg = isinstance(x.test, ast.Compare) and isinstance(x.test.ops[0], ast.IsNot)
+        when_set = x.body if neg else x.orelse       # branch taken when pandera_dtype is not None
+        ok = on_df and "pandera_dtype" in txt(when_set)
+        ctx.ob("R16", f, "dataframe_strategy: the dataframe-level dtype overrides the column dtype", ok,
+               f"`{txt(x)[:70]}`" if ok else
+               f"`{txt(x)[:80]}` lets the column's own dtype win: DataFrameSchema({{'a': Column(int)}}, dtype=float) generates int columns, which validation (dataframe "
+               "dtype wins) rejects", f.loc(x))
+    if n < 1:
+        raise AnalysisError("dataframe_strategy: no choice between column dtype and dataframe dtype found")
+
+
 def run(ctx):
+    r15_statistics_are_the_check_arguments(ctx)
+    r16_dataframe_dtype_wins(ctx)
     r13_series_index_generated(ctx)
     r14_fallback_filter_everywhere(ctx)
     r11_classifiers(ctx)
